@@ -325,7 +325,8 @@ func (f *Frame) applyContractEnv(con *Contract, names []string, args []Val, sig 
 		e.assumeAt(f.curReach, t)
 	}
 	oldHeap := f.heap.clone()
-	if con.ModAll {
+	if con.ModAll || (len(con.Modifies) == 0 && !con.Pure && !con.Extern) {
+		// no frame declared: the callee may change anything
 		f.havocAll()
 	} else {
 		for _, m := range con.Modifies {
@@ -853,7 +854,7 @@ func (e *Enc) callWrites(common *ssa.CallCommon, depth int, set map[string]bool,
 
 // contractWrites resolves a contract's modifies clauses to heap variables by type.
 func (e *Enc) contractWrites(con *Contract, callee *ssa.Function, sig *types.Signature, set map[string]bool, all *bool) {
-	if con.ModAll {
+	if con.ModAll || (len(con.Modifies) == 0 && !con.Pure && !con.Extern) {
 		*all = true
 		return
 	}
